@@ -25,16 +25,17 @@ TRUSTED_BASE = [
 # ---------------------------------------------------------------------------------------------
 # property table: theorem modules, generated tables, correspondence runs (level, group)
 PROPS = {
-    "C01": dict(modules=["Emu8086.Props.C01", "Emu8086.Props.C01Exec"], runs=[("l1", "arith"), ("l2", "arith"), ("l2i", "ishapes"), ("l2", "mixseq"), ("l3", "roles")], gen=["Arch"],
+    "C01": dict(modules=["Emu8086.Props.C01", "Emu8086.Props.C01Exec"], runs=[("l1", "arith"), ("l2", "arith"), ("l2i", "ishapes"), ("l2", "mixseq"), ("l3", "roles"), ("l1", "wordx")], gen=["Arch"],
                 rule="L1: every byte operand pair x 4+ flag words for ADD/ADC/SUB/SBB/CMP, every byte value x flag words for INC/DEC/NEG, "
                      "word operands on the boundary lattice^2 + seeded random pairs; non-trivial = result or flag word differs from the input; "
                      "distinct = distinct request text (hash-sharded, de-duplicated in the driver)"
-                     " l2i ishapes: requests generated from the CURRENT interpreter grammar (every alternative of every instruction production x every table entry x every memory-operand alternative); l2 mixseq: mixed straight-line sequences over all instruction classes."),
-    "C02": dict(modules=["Emu8086.Props.C02"], runs=[("l1", "bits"), ("l2", "logic+shift"), ("l2i", "ishapes"), ("l2", "mixseq"), ("l3", "roles")], gen=["Arch"],
+                     " l2i ishapes: requests generated from the CURRENT interpreter grammar (every alternative of every instruction production x every table entry x every memory-operand alternative); l2 mixseq: mixed straight-line sequences over all instruction classes."
+                     " l1 wordx: EVERY pair of word operands x both carry-ins for ADD/ADC/SUB/SBB/CMP (8 passes of 2^32 pairs in the thorough tier, one sixteenth of the first operands in the quick tier) is run through the real functions; pairs that disagree with a harness-side filter are handed to the model/spec verdict as ordinary requests (none on a correct tree)."),
+    "C02": dict(modules=["Emu8086.Props.C02"], runs=[("l1", "bits"), ("l2", "logic+shift"), ("l2i", "ishapes"), ("l2", "mixseq"), ("l3", "roles"), ("l1", "wordx_logic")], gen=["Arch"],
                 rule="L1: all 256 byte values x all 256 counts x 2 flag words for the 7 shift/rotate functions; word values (lattice+random) x all 256 counts; "
                      "logic ops on all byte pairs and lattice/random word pairs; non-trivial = result or flags changed"
                      " l2i ishapes: requests generated from the CURRENT interpreter grammar (every alternative of every instruction production x every table entry x every memory-operand alternative); l2 mixseq: mixed straight-line sequences over all instruction classes."),
-    "C03": dict(modules=["Emu8086.Props.C03", "Emu8086.Props.C11"], runs=[("l1", "muldiv"), ("l2", "muldiv"), ("l2", "divx"), ("l2i", "ishapes"), ("l2", "mixseq"), ("l3", "roles")], gen=["Arch", "ILiterals", "PPGrammar"],
+    "C03": dict(modules=["Emu8086.Props.C03", "Emu8086.Props.C11"], runs=[("l1", "muldiv"), ("l2", "muldiv"), ("l2", "divx"), ("l2i", "ishapes"), ("l2", "mixseq"), ("l3", "roles"), ("l1", "wordx_mul")], gen=["Arch", "ILiterals", "PPGrammar"],
                 rule="L1: MUL/IMUL/DIV/IDIV byte forms on (lattice+random AX) x all 256 operands, word forms on lattice triples + random 48-bit triples "
                      "biased to the quotient-overflow boundary; adjusts on AX x {AF,CF}; non-trivial = state changed or divide error"
                      " l2i ishapes: requests generated from the CURRENT interpreter grammar (every alternative of every instruction production x every table entry x every memory-operand alternative); l2 mixseq: mixed straight-line sequences over all instruction classes."),
